@@ -22,6 +22,7 @@ import c19_dwarf
 from vlib import ToolError, log, WORK
 
 PUPPETS = ["scope5", "rec6", "align7"]
+PUPPETS_O1 = ["regs8"]       # built at opt-level 1 in both tiers
 CLASSES = {"out_of_scope_variable_listed", "sibling_block_variable_listed", "declared_later_listed",
            "in_scope_variable_missing", "shadowed_name_resolves_to_outer", "wrong_frame_value", "wrong_value",
            "wrong_register", "query_failed", "value_from_callers_frame_base",
@@ -403,6 +404,9 @@ def run(rep, tier, replay):
     with ThreadPoolExecutor(max_workers=jobs) as ex:
         fmc = None if os.environ.get("VERIF_C19_SKIP_MC") else ex.submit(mc)
         futs = [ex.submit(one, name, b) for name in PUPPETS for b in cfg["builds"]]
+        # arguments living in their argument registers (DWARF registers 5, 4, 1, 2, 8, 9): optimised builds only
+        o1 = sorted({(b[0], 1, True) for b in cfg["builds"]})
+        futs += [ex.submit(one, name, b) for name in PUPPETS_O1 for b in o1]
         for f in futs:
             f.result()
         states, trans, pred = fmc.result() if fmc else (0, 0, "skipped")
@@ -415,7 +419,7 @@ def run(rep, tier, replay):
         raise ToolError(f"vacuous run: no judged position had shadowed bindings / recursive activations ({st})")
     if any(b[1] == 0 for b in cfg["builds"]) and st.get("sprel", 0) == 0:
         raise ToolError("vacuous run: no rsp-relative (DW_OP_breg7) variable of an outer frame was judged (puppet align7)")
-    if any(b[1] == 1 for b in cfg["builds"]) and st.get("regvals", 0) == 0:
+    if st.get("regvals", 0) == 0:
         raise ToolError("vacuous run: no register-located value was judged in the opt-level 1 builds")
     cov = {"states": states, "transitions": trans, "traces_validated_against_impl": acc["sessions"],
            "events_recorded": acc["events"], "observations_judged": st.get("judged", 0),
